@@ -516,7 +516,7 @@ def shards(tier, seed):
         pairs = [(j, k) for j in range(count) for k in range(j + 1, count)]
         rng.shuffle(pairs)
         # CPython keeps small sets in 8 slots: members whose hash (= flag value) agrees mod 8 collide
-        for j, k in (pairs if thorough else [(3, 4)] + pairs[:1]):
+        for j, k in ([(3, 4)] + pairs[:30] if thorough else [(3, 4)] + pairs[:1]):
             out.append(Shard(MOD, 'set_order', 'set_order/%s/%d_%d' % (field, j, k), {'FIELD': field, 'J': j, 'K': k},
                              300 if thorough else 90, group='set_order/' + field,
                              bounds='MySQL handshake whose set-valued field %s holds members %d, %d and any third one, '
